@@ -747,3 +747,51 @@ add("m18m", ["C18"], (P, """            for down in downstreams:
                 down.requires(up)
                 break"""), rules=["R18.2"])
 add("b21", ["C18"], (P, "        preserved = downwards & upwards", "        preserved = upwards & downwards"), expect='silent')
+
+# ------------------------------------------------------------------ C19
+add("m19a", ["C19"], (J, "                    self.requires(requirement.jobs[-1], remove=remove)", "                    self.requires(requirement.jobs[0], remove=remove)"),
+    rules=["R19.4"])
+add("m19b", ["C19"], (Q, """        for job1, job2 in zip(self.jobs, self.jobs[1:]):
+            job2.requires(job1)""", """        for job1, job2 in zip(self.jobs, self.jobs[1:]):
+            job1.requires(job2)"""), rules=["R19.1"])
+add("m19c", ["C19"], (J, """        if job is not self:
+            self.required.add(job)""", """        self.required.add(job)"""), rules=["R19.4"])
+add("m19d", ["C19"], (Q, """        for job1, job2 in zip(new_jobs, new_jobs[1:]):
+            job2.requires(job1)
+""", ""), rules=["R19.1"])
+add("m19e", ["C19"], (Q, """        if not new_jobs:
+            # nothing but None's or empty sequences
+            return
+""", """        if not self.jobs:
+            # nothing but None's or empty sequences
+            return
+"""), rules=["R19.2"])
+add("m19f", ["C19"], (J, """                for req in requirement:
+                    self.requires(req, remove=remove)""", """                for req in requirement:
+                    self.requires(req)"""), rules=["R19.3"])
+add("m19g", ["C19"], (Q, """        if self.jobs:
+            self.jobs[0].requires(required)""", """        if self.jobs:
+            self.jobs[-1].requires(required)"""), rules=["R19.4"])
+add("m19h", ["C19"], (J, "                    self.requires(requirement.jobs[-1], remove=remove)", "                    self._add_one_requirement(requirement.jobs[-1])"),
+    rules=["R19.3"])
+add("m19i", ["C19"], (J, "                    self.required.remove(requirement)", "                    self.required.discard(requirement)"), rules=["R19.3"])
+add("m19j", ["C19"], (J, """            if requirement is None:
+                continue
+""", ""), rules=["R19.4"])
+add("m19k", ["C19"], (Q, """        self.jobs += new_jobs
+        if self.scheduler is not None:
+            self.scheduler.update(new_jobs)""", """        self.jobs += new_jobs"""), rules=["R19.5"])
+add("m19l", ["C19"], (Q, """        if self.jobs:
+            new_jobs[0].requires(self.jobs[-1])
+""", ""), rules=["R19.1"])
+add("m19m", ["C19"], (J, """                if requirement.jobs:
+                    self.requires(requirement.jobs[-1], remove=remove)""", """                self.requires(requirement.jobs[-1], remove=remove)"""), rules=["R19.2"])
+add("m19n", ["C19"], (J, """        if scheduler is not None:
+            scheduler.add(self)
+""", ""), rules=["R19.5"])
+add("m19o", ["C19"], (P, """        self.update([job])
+        return job""", """        self.jobs.add(job)
+        return job"""), rules=["R19.5"])
+add("b22", ["C19"], (Q, """        if not sequences_or_jobs:
+            return
+""", ""), expect='silent')
